@@ -5,7 +5,7 @@ PID = "C09"
 
 def main(tier, seed):
     return sprops.main_pairs(PID, tier, seed, {71, 61, 62, 81}, "Props.C09",
-                             ["Model/Sim.v", "Oracle/SimCheck.v", "Oracle/SimOracle.v", "Proofs/SimP.v", "Props/C09.v"],
+                             ["Model/Sim.v", "Oracle/SimCheck.v", "Oracle/SimOracle.v", "Proofs/SimP.v", "Proofs/FlattenP.v", "Props/C09.v"],
                              "transparency of system simulations", "flatten")
 
 
